@@ -69,7 +69,8 @@ RULE = ("tcploop (extra area): fixed, burst (257-300 open requests in chunks or 
         "connections, closes of live connections in either order, opens, command receipt, answers by success/failure, "
         "dropped tasks, clogged channels of capacity 1-3, foreign id allocations, force_close followed by the closes of the "
         "peer's connections in a random order with substream events between, calls of dial/dial_address/add_known_address/"
-        "local_peer_id/listen+public addresses/unregister_protocol), a force_close-with-overlapping-connections family (12 %: "
+        "local_peer_id/listen+public addresses/unregister_protocol; add_known_address with address kinds tcp/tcpp/wrong/udp/unspec/"
+        "two/twow/relay/circ, and a `known` family every 50th case: see checks/c10.py), a force_close-with-overlapping-connections family (12 %: "
         "two connections, pending/received/answered requests, full or dropped channel, force_close, primary-first or "
         "secondary-first close, events of the surviving connection between) and an infeasible stream (third "
         "connections, closes of unknown connections, duplicate/unknown answers, repeated ids, force_close anywhere); every case ends by "
@@ -237,13 +238,89 @@ def gen_feasible(rng, n_ops):
 def manager_ops(rng):
     """Calls of methods that only delegate to the manager handle (they never touch the service's state)."""
     p = rng.choice(PEERS + PEERS + [0, 3])
-    kind = rng.choice(["tcp", "tcp", "tcpp", "tcpp", "wrong", "udp", "unspec"])
+    kind = rng.choice(["tcp", "tcp", "tcpp", "tcpp", "wrong", "udp", "unspec", "wrong", "two", "twow", "relay", "circ"])
     port = rng.choice([1, 2, 3])
     r = rng.random()
     if r < 0.3:
         return [f"known {p} {kind} {port}", f"dial {p}"] + ["mgr_recv"] * rng.randrange(0, 2)
     return [rng.choice([f"known {p} {kind} {port}", f"dial {p}", f"dial_addr {p} {kind} {port}", "mgr_recv", "mgr_recv",
                         "lpid", "addrs", "unregister"])]
+
+
+# ---- addresses offered through the service (C10: attribution; run as `extra_cases` of checks/c10.py) ----
+NAMES_PEER = ("tcp", "tcpp")                          # plain TCP shape, names the peer or nobody
+FOREIGN = ("wrong", "two", "twow", "relay", "circ")   # trailing /p2p of somebody else / not a plain shape
+UNDIALABLE = ("udp", "unspec")
+
+
+def gen_known(rng):
+    """`TransportService::add_known_address` with addresses whose `/p2p` components name the peer, nobody, another
+    peer, two peers, a relay — interleaved with `dial` / `mgr_recv` (would the manager be asked to dial?)."""
+    ops = [f"cfg {rng.choice([1, 2, 4])}"]
+    for _ in range(rng.choice([3, 5, 8, 12])):
+        p = rng.choice(PEERS + PEERS + [3])
+        r = rng.random()
+        if r < 0.45:
+            kind, port = rng.choice(FOREIGN), rng.choice([4, 5, 6, 7] if rng.random() < 0.8 else [1, 2, 3])
+        elif r < 0.85:
+            kind, port = rng.choice(NAMES_PEER), rng.choice([1, 2, 3])
+        else:
+            kind, port = rng.choice(UNDIALABLE), rng.choice([1, 2, 3, 8])
+        ops.append(f"known {p} {kind} {port}")
+        if rng.random() < 0.35:
+            ops += [f"dial {p}", "mgr_recv"]
+    ops.append("next")
+    return ops
+
+
+def gen_known_cases(rng, tier):
+    n = {"quick": 120, "thorough": 4000, "search": 400}[tier]
+    fixed = [["cfg 2", f"known 1 {k} 5", "dial 1", "mgr_recv", "known 1 tcp 1", f"known 1 {k} 1", "dial 1", "mgr_recv", "next"]
+             for k in FOREIGN]
+    return fixed + [gen_known(rng) for _ in range(n)]
+
+
+def oracle_known(case, out):
+    """C10, property level (no model): after `known <p> <kind> <port>` the peer table of <p> holds only addresses that
+    were offered for <p> in a form naming <p> or nobody (kinds tcp/tcpp), each ending with <p>'s own id and of the plain
+    shape; `dial <p>` is accepted only if such an address was offered."""
+    bad = []
+    legit = {}
+    for i, (op, o) in enumerate(zip(case, out)):
+        t = op.split()
+        if o == "skipped":
+            break
+        if o.startswith("panic"):
+            bad.append({"kind": "panic", "msg": f"panic in {t[0]}: {o}", "step": i, "op": op, "out": o})
+            break
+        if o == "bad-op":
+            continue
+        if t[0] == "known" and o.startswith("stored=["):
+            p, kind, port = int(t[1]), t[2], int(t[3]) % 65536
+            if kind in NAMES_PEER:
+                legit.setdefault(p, set()).add(str(port))
+            body = o[len("stored=["):-1]
+            for x in (body.split(",") if body else []):
+                if x.rstrip("!~") not in legit.get(p, set()) or "!" in x:
+                    bad.append({"kind": "foreign-address-remembered", "step": i, "op": op, "out": o,
+                                "msg": f"peer {p}'s address book holds {x!r}: no address with this port naming peer {p} (or "
+                                       f"no peer) was offered for it ('!' = trailing /p2p of another peer)"})
+                elif "~" in x:
+                    bad.append({"kind": "undialable-address-remembered", "step": i, "op": op, "out": o,
+                                "msg": f"peer {p}'s address book holds {x!r}: not of the shape /<host>/tcp/<port>/p2p/<id>"})
+        elif t[0] == "dial" and o == "ok" and len(t) == 2 and t[1].isdigit() and not legit.get(int(t[1])):
+            bad.append({"kind": "foreign-address-remembered", "step": i, "op": op, "out": o,
+                        "msg": f"dial by peer id accepted for peer {t[1]} although no address naming it (or no peer) was offered"})
+    return bad
+
+
+def stats_known(case, out, acc):
+    for op, o in zip(case, out):
+        t = op.split()
+        if t[0] == "known":
+            bump(acc, f"known:{t[2]}:" + ("kept" if (o.startswith("stored=[") and str(int(t[3]) % 65536) in o[8:-1].split(",")) else "not-kept"))
+        elif t[0] == "dial":
+            bump(acc, "dial:" + o)
 
 
 def gen_force_overlap(rng):
@@ -429,6 +506,8 @@ def gen_cases(rng, tier):
     for i in range(n):
         k = rng.choice([6, 12, 20, 30, 45])
         r = rng.random()
+        if i % 50 == 7:
+            yield gen_known(rng)
         yield gen_force_overlap(rng) if r < 0.12 else gen_feasible(rng, k) if r < 0.72 else gen_infeasible(rng, k)
     if tier == "thorough":
         for c in exhaustive_cases():
